@@ -11,58 +11,47 @@ follow the decision logic of the code:
     Types" table of docs/lang_ref.rst (`legalArgs`);
 (b) `FeNames`: the registration pass reduced to names against the pairwise no-clash rule (`NoClash`).
 
-Full-strength statements that are false of today's code are refuted on a concrete witness; the `_partial` versions
-exclude exactly the witnessed holes by a named, decidable hypothesis.  Holes that were repaired in the code since the
-first version of these models (a literal as `List` / `Map` element type, a non-integral `List` length) are no longer
-excluded; the new behaviour is pinned by `list_literal_refused`, `list_float_length_refused`.
+All statements are full strength.  The holes earlier versions of the code had (a literal as `List` / `Map` element
+type, a non-integral `List` length, a falsy non-string `String` pattern, a numeric bound beyond the far end of the
+width, the separator-less canonical key) were repaired in the code; the former witnesses are kept as regression
+statements of the new behaviour.
 -/
 namespace StoneVerif.C01
 open StoneVerif.FeParams StoneVerif.FeNames
 
 /-! ## (a) type arguments -/
 
-/-- A legal argument list is never refused (full strength; `rx ""`: the empty pattern compiles). -/
-theorem legal_args_accepted (rx : String → Bool) (hrx : rx "" = true) (k : TyKind) (pos : List Arg)
+/-- A legal argument list is never refused. -/
+theorem legal_args_accepted (rx : String → Bool) (k : TyKind) (pos : List Arg)
     (kw : List (String × Arg)) (h : legalArgs rx k pos kw = true) : ∃ t, instantiate rx k pos kw = .ok t :=
-  FeParams.legal_accepted rx hrx k pos kw h
+  FeParams.legal_accepted rx k pos kw h
 
-/-- Acceptance = legality, outside the two remaining holes (`hitsHole`: a falsy non-string `String` pattern, a
-numeric bound beyond the far end of the width). Missing for full strength: those holes. -/
-theorem instantiate_ok_iff_legal_partial (rx : String → Bool) (hrx : rx "" = true) (k : TyKind) (pos : List Arg)
-    (kw : List (String × Arg)) (hh : hitsHole k kw = false) :
+/-- Acceptance = legality, for every built-in type and every argument list (`rx`: which patterns `re.compile`
+accepts). -/
+theorem instantiate_ok_iff_legal (rx : String → Bool) (k : TyKind) (pos : List Arg) (kw : List (String × Arg)) :
     (∃ t, instantiate rx k pos kw = .ok t) ↔ legalArgs rx k pos kw = true :=
-  FeParams.instantiate_ok_iff_legal_partial rx hrx k pos kw hh
+  FeParams.instantiate_ok_iff_legal rx k pos kw
 
 /-- The same for a whole reference `K(args)` / `K(args)?` to a built-in type (`Void?` is refused). -/
-theorem builtin_ref_ok_iff_legal_partial (rx : String → Bool) (hrx : rx "" = true) (k : TyKind) (pos : List Arg)
-    (kw : List (String × Arg)) (nullable : Bool) (hh : hitsHole k kw = false) :
+theorem builtin_ref_ok_iff_legal (rx : String → Bool) (k : TyKind) (pos : List Arg) (kw : List (String × Arg))
+    (nullable : Bool) :
     (∃ r, resolveBuiltin rx k pos kw nullable = .ok r) ↔ legalRef rx k pos kw nullable = true :=
-  FeParams.resolveBuiltin_ok_iff_legalRef_partial rx hrx k pos kw nullable hh
+  FeParams.resolveBuiltin_ok_iff_legalRef rx k pos kw nullable
 
-/-- Full strength for the composite and parameterless types: for `List`, `Map`, `Timestamp`, `Bytes`, `Boolean`,
-`Void` acceptance = legality for every argument list (no hole is left there). -/
-theorem container_ok_iff_legal (rx : String → Bool) (hrx : rx "" = true) (k : TyKind) (pos : List Arg)
-    (kw : List (String × Arg)) (hk : k = .list ∨ k = .map ∨ k = .timestamp ∨ k = .bytes ∨ k = .boolean ∨ k = .void) :
-    (∃ t, instantiate rx k pos kw = .ok t) ↔ legalArgs rx k pos kw = true :=
-  FeParams.instantiate_ok_iff_legal_of_kind rx hrx k pos kw hk
+/-- Repaired: `String(pattern=0)`, `pattern=false`, `pattern=0.0` are spec errors. -/
+theorem string_falsy_pattern_refused :
+    instantiate (fun _ => true) .string [] [("pattern", .int 0)] = .error (.specerr .badArgument) ∧
+    instantiate (fun _ => true) .string [] [("pattern", .bool false)] = .error (.specerr .badArgument) ∧
+    instantiate (fun _ => true) .string [] [("pattern", .float (.fin 0 1))] = .error (.specerr .badArgument) :=
+  FeParams.string_falsy_pattern_refused
 
-/-- The full-strength equivalence over all thirteen types FAILS on today's code. -/
-theorem instantiate_ok_iff_legal_fails :
-    ¬ ∀ (rx : String → Bool) (k : TyKind) (pos : List Arg) (kw : List (String × Arg)),
-      ((∃ t, instantiate rx k pos kw = .ok t) ↔ legalArgs rx k pos kw = true) :=
-  FeParams.instantiate_ok_iff_legal_fails
-
-/-- `String(pattern=0)`: a non-string pattern is accepted when it is falsy. -/
-theorem hole_string_falsy_pattern :
-    instantiate (fun _ => true) .string [] [("pattern", .int 0)] = .ok (.string none none (some (.int 0))) ∧
-      legalArgs (fun _ => true) .string [] [("pattern", .int 0)] = false :=
-  FeParams.hole_string_falsy_pattern
-
-/-- `Int32(min_value=2147483648)`: a lower bound above the maximum of the width is accepted. -/
-theorem hole_int_min_above_maximum :
-    instantiate (fun _ => true) .int32 [] [("min_value", .int 2147483648)] = .ok (.int .int32 (some 2147483648) none) ∧
-      legalArgs (fun _ => true) .int32 [] [("min_value", .int 2147483648)] = false :=
-  FeParams.hole_int_min_above_maximum
+/-- Repaired: `Int32(min_value=2147483648)`, `UInt32(max_value=-1)`, `Float32(min_value=1e39)` are spec errors. -/
+theorem bound_beyond_far_end_refused :
+    instantiate (fun _ => true) .int32 [] [("min_value", .int 2147483648)] = .error (.specerr .badArgument) ∧
+    instantiate (fun _ => true) .uint32 [] [("max_value", .int (-1))] = .error (.specerr .badArgument) ∧
+    instantiate (fun _ => true) .float32 [] [("min_value", .float (.fin (10 ^ 39) 1))] = .error (.specerr .badArgument) :=
+  ⟨FeParams.int_min_above_maximum_refused, FeParams.uint_max_below_minimum_refused,
+    FeParams.float32_bound_beyond_far_end_refused.1⟩
 
 /-- Repaired: `List(3)` (a literal where a type is required) is a spec error. -/
 theorem list_literal_refused :
@@ -81,42 +70,57 @@ theorem signature_tables (k : TyKind) :
       (optional k).map (·.1) = (initSig k).1.drop ((initSig k).1.length - (initSig k).2) :=
   ⟨FeParams.required_matches_signature k, FeParams.optional_matches_signature k⟩
 
-example : hitsHole .string [("min_length", .int 1), ("max_length", .int 5)] = false ∧
-    legalArgs (fun _ => true) .string [] [("min_length", .int 1), ("max_length", .int 5)] = true := by decide
+/-- the width tables the bound checks read (`Tables.irIntBounds`, `Tables.irFloatBounds`) -/
+theorem bound_tables :
+    [TyKind.int32, .uint32, .int64, .uint64].map (fun k => (k.pyName, intLimits k)) = Tables.irIntBounds ∧
+    floatLimits .float64 = (none, none) :=
+  ⟨FeParams.intLimits_table, FeParams.floatLimits_table.2.1⟩
+
+example : legalArgs (fun _ => true) .string [] [("min_length", .int 1), ("max_length", .int 5), ("pattern", .str "a+")]
+    = true ∧ legalArgs (fun _ => true) .int32 [] [("min_value", .int 2147483648)] = false := by decide
 
 /-! ## (b) names -/
 
-/-- Registration succeeds exactly when no two definitions clash (A8 – A10, B19), provided the separator-less
-concatenation of `_get_base_name` is unambiguous on the input and namespace names are identifiers (no `/`).
-Missing for full strength: `ConcatUnambiguous` (see `register_refuses_legal`). -/
-theorem register_ok_iff_noclash_partial (fs : List File) (hu : ConcatUnambiguous fs) (hl : NsLexical fs) :
-    isOk (register fs) = true ↔ NoClash fs :=
-  FeNames.register_ok_iff_noclash_partial fs hu hl
+/-- Registration succeeds exactly when no two definitions clash (A8 – A10, B19).  `NsLexical` (no `/` in a namespace
+name) is the lexer's guarantee about `ID` tokens, not a restriction on compiler inputs. -/
+theorem register_ok_iff_noclash (fs : List File) (hl : NsLexical fs) : isOk (register fs) = true ↔ NoClash fs :=
+  FeNames.register_ok_iff_noclash fs hl
 
-/-- Acceptance does not depend on declaration order, file order or on how a namespace is split into files (same
-hypotheses). -/
-theorem register_perm_partial (fs fs' : List File) (h : SameDecls fs fs') (hu : ConcatUnambiguous fs)
-    (hl : NsLexical fs) : isOk (register fs) = isOk (register fs') :=
-  FeNames.register_perm_partial fs fs' h hu hl
+/-- Acceptance does not depend on declaration order, file order or on how a namespace is split into files. -/
+theorem register_perm (fs fs' : List File) (h : SameDecls fs fs') (hl : NsLexical fs) :
+    isOk (register fs) = isOk (register fs') :=
+  FeNames.register_perm fs fs' h hl
 
-/-- Without the hypothesis: a spec that violates no naming rule is refused (`Ab` in `c`, `A` in `bc`). -/
-theorem register_refuses_legal : ∃ fs, NoClash fs ∧ isOk (register fs) = false :=
-  FeNames.register_refuses_legal
+/-- The keys of `_get_base_name` determine (canonical name, canonical namespace): the separator
+`Tables.feCanonicalSep` is stripped from the name part and cannot occur in a namespace name. -/
+theorem keys_unambiguous (fs : List File) (hl : NsLexical fs) : ConcatUnambiguous fs :=
+  FeNames.concatUnambiguous_of_nsLexical fs hl
 
-/-- Without the hypothesis: acceptance depends on file order (type `abc` of namespace `abcabcabc` against the
-namespace line of `abcabc`). -/
-theorem register_order_dependent : ∃ fs fs', SameDecls fs fs' ∧ isOk (register fs) ≠ isOk (register fs') :=
-  FeNames.register_order_dependent
+/-- Repaired: `Ab` in namespace `c` with `A` in namespace `bc` (both keys used to be `abc`) is accepted. -/
+theorem concat_legal_accepted :
+    isOk (register [⟨"c".toList, [⟨.type, "Ab".toList⟩]⟩, ⟨"bc".toList, [⟨.type, "A".toList⟩]⟩]) = true :=
+  FeNames.concat_legal_accepted.2
+
+/-- Repaired: type `abc` of namespace `abcabcabc` with namespace `abcabc` is accepted in both file orders. -/
+theorem concat_order_independent :
+    isOk (register [⟨"abcabcabc".toList, [⟨.type, "abc".toList⟩]⟩, ⟨"abcabc".toList, [⟨.type, "X".toList⟩]⟩]) = true ∧
+    isOk (register [⟨"abcabc".toList, [⟨.type, "X".toList⟩]⟩, ⟨"abcabcabc".toList, [⟨.type, "abc".toList⟩]⟩]) = true :=
+  FeNames.concat_order_independent
 
 /-- A name of `Tables.feBuiltinTypes` cannot be redefined, whatever else the spec says. -/
 theorem builtin_type_not_redefinable (fs : List File) (f : File) (hf : f ∈ fs) (x : Item) (hx : x ∈ f.items)
     (hb : x.name ∈ Tables.feBuiltinTypes.map String.toList) : isOk (register fs) = false :=
   FeNames.builtin_type_not_redefinable fs f hf x hx (FeNames.builtinTypes_eq ▸ hb)
 
-/-- the characters `_get_base_name` strips, as extracted from the code -/
-theorem canonical_strip_table : Tables.feCanonicalStrip = (["/", "_"], ["_"]) := FeNames.canonical_strip_table
+/-- the characters `_get_base_name` strips and the separator it inserts, as extracted from the code -/
+theorem canonical_key_tables : Tables.feCanonicalStrip = (["/", "_"], ["_"]) ∧ Tables.feCanonicalSep = "/" :=
+  ⟨FeNames.canonical_strip_table, FeNames.canonical_sep_table⟩
 
-example : ConcatUnambiguous FeNames.exampleFiles ∧ NsLexical FeNames.exampleFiles ∧ NoClash FeNames.exampleFiles ∧
+example : NsLexical FeNames.exampleFiles ∧ NoClash FeNames.exampleFiles ∧
     isOk (register FeNames.exampleFiles) = true := by decide
+
+/-- a refused input: the theorem is not about a model that accepts everything -/
+example : NsLexical [⟨"a".toList, [⟨.type, "Foo".toList⟩, ⟨.route 1, "foo".toList⟩]⟩] ∧
+    ¬ NoClash [⟨"a".toList, [⟨.type, "Foo".toList⟩, ⟨.route 1, "foo".toList⟩]⟩] := by decide
 
 end StoneVerif.C01
